@@ -12,7 +12,7 @@ namespace J5V.Walker
 open J5V.Bcl
 
 /-- `SetAttribute` on a path that ends in a scalar field -/
-theorem setAttribute_scalar {env : Env} {sc : Scope} {path : PathSpec} {ref : List Ident}
+theorem setAttribute_scalar' {env : Env} {fuel : Nat} {sc : Scope} {path : PathSpec} {ref : List Ident}
     {val : AV} {pre : List PathElement} {last : PathElement} {a : Addr} {X X1 X2 X3 : Node} {ps : Scope}
     {f : Addr} {ty : FieldType} {pres : Bool} {v : Scalar}
     (hfp : combinePath path ref = pre ++ [last])
@@ -20,8 +20,8 @@ theorem setAttribute_scalar {env : Env} {sc : Scope} {path : PathSpec} {ref : Li
     (hsf : Exact (scopeField env ps last.name false) a X1 ⟨f, .scalar ty pres⟩ X2)
     (hna : val.asArray = none) (hsc : scalarFromAST env ty val = .ok v)
     (hst : Exact (storeScalar f pres v) a X2 () X3) :
-    Exact (setAttribute env (fuelOf env) sc path ref val false) a X () X3 := by
-  rw [fuelOf_succ, setAttribute]
+    Exact (setAttribute env (fuel + 1) sc path ref val false) a X () X3 := by
+  rw [setAttribute]
   dsimp only
   rw [hfp]
   rw [if_neg (by simp), List.getLast?_concat, List.dropLast_concat]
@@ -34,8 +34,43 @@ theorem setAttribute_scalar {env : Env} {sc : Scope} {path : PathSpec} {ref : Li
   rw [hsc]
   exact hst
 
+theorem setAttribute_scalar {env : Env} {sc : Scope} {path : PathSpec} {ref : List Ident}
+    {val : AV} {pre : List PathElement} {last : PathElement} {a : Addr} {X X1 X2 X3 : Node} {ps : Scope}
+    {f : Addr} {ty : FieldType} {pres : Bool} {v : Scalar}
+    (hfp : combinePath path ref = pre ++ [last])
+    (hws : Exact (walkScope env sc pre) a X ps X1)
+    (hsf : Exact (scopeField env ps last.name false) a X1 ⟨f, .scalar ty pres⟩ X2)
+    (hna : val.asArray = none) (hsc : scalarFromAST env ty val = .ok v)
+    (hst : Exact (storeScalar f pres v) a X2 () X3) :
+    Exact (setAttribute env (fuelOf env) sc path ref val false) a X () X3 := by
+  rw [fuelOf_succ]; exact setAttribute_scalar' hfp hws hsf hna hsc hst
+
 /-- `SetAttribute` whose last name is found (alias of length one, or the property itself) in a block at
 `a ++ b`, into a scalar property not touched yet; `pre` = the part of the path walked before -/
+theorem setAttr_walk' {env : Env} {fuel : Nat} {sc ps : Scope} {path : PathSpec} {ref : List Ident} {val : AV}
+    {pre : List PathElement} {n : Str} {pos : Option Span} {s : Schema} {spec : BlockSpec} {a b : Addr}
+    {final : Str} {i : Nat} {og : Option (Str × List Nat)} {ty : FieldType} {pres : Bool} {X X1 : Node}
+    {t : List Bool} {vs : List Node} {cur : Node} {v : Scalar}
+    (hfp : combinePath path ref = pre ++ [⟨n, pos⟩])
+    (hws : Exact (walkScope env sc pre) a X ps X1)
+    (hfb : findBlock n ps.blockSet = some (cfOf s spec (a ++ b), [final]))
+    (hpi : propInfo env s final = some (i, og, .scalar ty pres))
+    (hX1 : X1.get? b = some (.msg t vs))
+    (ht : t[i]? = some false) (hv : vs[i]? = some cur) (hconf : NoConflict og vs)
+    (hna : val.asArray = none) (hsc : scalarFromAST env ty val = .ok v) :
+    Exact (setAttribute env (fuel + 1) sc path ref val false) a X ()
+      (X1.set b (.msg (t.set i true) (vs.set i (storeNode pres v)))) := by
+  have hlt : i < vs.length := (List.getElem?_eq_some_iff.mp hv).1
+  refine setAttribute_scalar' (last := ⟨n, pos⟩) hfp hws
+    ((scopeField_direct hfb (propInfo_hasProperty hpi) (propSetValue_build _ hpi ht hv hconf)).lift hX1)
+    hna hsc ?_
+  have h := Exact.setNode (a := a) (b := b ++ [i])
+    (X := X1.set b (.msg (t.set i true) (vs.set i (builtValue (.scalar ty pres) cur)))) (storeNode pres v)
+  rw [← List.append_assoc] at h
+  refine h.conv ?_
+  rw [Node.set_append (Node.get?_set_self' hX1 _), Node.set_set,
+    Node.set_msg_single _ _ _ cur _ (by rw [List.getElem?_set_self hlt]; rfl), List.set_set]
+
 theorem setAttr_walk {env : Env} {sc ps : Scope} {path : PathSpec} {ref : List Ident} {val : AV}
     {pre : List PathElement} {n : Str} {pos : Option Span} {s : Schema} {spec : BlockSpec} {a b : Addr}
     {final : Str} {i : Nat} {og : Option (Str × List Nat)} {ty : FieldType} {pres : Bool} {X X1 : Node}
@@ -49,16 +84,23 @@ theorem setAttr_walk {env : Env} {sc ps : Scope} {path : PathSpec} {ref : List I
     (hna : val.asArray = none) (hsc : scalarFromAST env ty val = .ok v) :
     Exact (setAttribute env (fuelOf env) sc path ref val false) a X ()
       (X1.set b (.msg (t.set i true) (vs.set i (storeNode pres v)))) := by
-  have hlt : i < vs.length := (List.getElem?_eq_some_iff.mp hv).1
-  refine setAttribute_scalar (last := ⟨n, pos⟩) hfp hws
-    ((scopeField_direct hfb (propInfo_hasProperty hpi) (propSetValue_build _ hpi ht hv hconf)).lift hX1)
-    hna hsc ?_
-  have h := Exact.setNode (a := a) (b := b ++ [i])
-    (X := X1.set b (.msg (t.set i true) (vs.set i (builtValue (.scalar ty pres) cur)))) (storeNode pres v)
-  rw [← List.append_assoc] at h
-  refine h.conv ?_
-  rw [Node.set_append (Node.get?_set_self' hX1 _), Node.set_set,
-    Node.set_msg_single _ _ _ cur _ (by rw [List.getElem?_set_self hlt]; rfl), List.set_set]
+  rw [fuelOf_succ]; exact setAttr_walk' hfp hws hfb hpi hX1 ht hv hconf hna hsc
+
+/-- `setAttr_direct` for any fuel -/
+theorem setAttr_direct' {env : Env} {fuel : Nat} {sc : Scope} {path : PathSpec} {ref : List Ident} {val : AV}
+    {n : Str} {pos : Option Span} {s : Schema} {spec : BlockSpec} {c : Addr} {final : Str} {i : Nat}
+    {og : Option (Str × List Nat)} {ty : FieldType} {pres : Bool} {t : List Bool} {vs : List Node}
+    {cur : Node} {v : Scalar}
+    (hfp : combinePath path ref = [⟨n, pos⟩])
+    (hfb : findBlock n sc.blockSet = some (cfOf s spec c, [final]))
+    (hpi : propInfo env s final = some (i, og, .scalar ty pres))
+    (ht : t[i]? = some false) (hv : vs[i]? = some cur) (hconf : NoConflict og vs)
+    (hna : val.asArray = none) (hsc : scalarFromAST env ty val = .ok v) :
+    Exact (setAttribute env (fuel + 1) sc path ref val false) c (.msg t vs) ()
+      (.msg (t.set i true) (vs.set i (storeNode pres v))) := by
+  have h := setAttr_walk' (fuel := fuel) (a := c) (b := []) (pre := []) (X := .msg t vs) hfp (walkScope_nil _ _ _)
+    (by rw [List.append_nil]; exact hfb) hpi (Node.get?_nil _) ht hv hconf hna hsc
+  exact h.conv (Node.set_nil _ _)
 
 /-- `SetAttribute` by ONE name (an alias of length one or the property itself) into a scalar property,
 not touched yet, of the message at `c` -/
